@@ -6,7 +6,7 @@ C38 driver.  Op lines (grammar: top of harness/src/bin/c38.rs)
   session <zero|tiny|large>
   create <t> s=<0|1> f=<f> <n> | append <t> f=<f> <n> | overwrite <t> f=<f> <n> | delete <t> <lo> <hi>
   restore <t> <v> | index <t> | drop <t>
-  scan <t> | scanv <t> <v> | count <t> | indices <t> | txn <t> <v> | take <t> <ids>
+  scan <t> | scanv <t> <v> | count <t> | indices <t> | txn <t> <v> | take <t> <ids> | fscan <t> <lo>
 
 The state is the model world plus the uuids of the indices in creation order (an index is printed as `i<k>`).
 The output is what a session with caching disabled reads; the cache capacity of the `session` line changes nothing here —
@@ -129,6 +129,13 @@ def step (s : St) (line : String) : St × String :=
       match versionOf s.w t v with
       | none => (s, "err not_found")
       | some m => (s, showScan m)
+    | _, _ => (s, "err parse")
+  | ["fscan", t, lo] =>
+    match parseTab t, parseNat lo with
+    | some t, some lo =>
+      match latestOf s.w t with
+      | none => (s, "err not_found")
+      | some m => (s, "v=" ++ toString m.version ++ " rows=" ++ showPairs ((scan m).filter fun p => decide (lo ≤ p.1)))
     | _, _ => (s, "err parse")
   | ["count", t] =>
     match parseTab t with
